@@ -64,6 +64,7 @@ class Index(object):
     self.ssend = []     # (seq, sock, time, marker, offered, accepted)
     self.tnew, self.tcancel, self.fires = {}, {}, {}
     self.overlaps, self.xexc, self.killed, self.runexc = [], [], [], []
+    self.wedged, self.deadlocks = [], []
     self.regs = []
     self.final = {}
     self.stop = None
@@ -100,6 +101,10 @@ class Index(object):
         self.killed.append(e)
       elif k == "runexc":
         self.runexc.append(e)
+      elif k == "wedged":
+        self.wedged.append(e)
+      elif k == "deadlock":
+        self.deadlocks.append(e)
       elif k == "reg":
         self.regs.append(e[1])
       elif k == "final":
@@ -170,7 +175,16 @@ def check(case, log):
     else:
       fail("scheduler-died", "Scheduler.run() raised %s at %s:\n%s" % (e[1], e[2], e[3]), exc=e[1], where=e[2])
   for e in ix.overlaps:
-    fail("step-overlap", "a step of %s started at %s while a step of %s was in progress" % (e[2], e[3], e[1]))
+    if str(e[1]).startswith("thread:"):
+      fail("step-on-wrong-thread", "a step of %s ran on %s, not on the scheduler's thread" % (e[2], e[1]))
+    else:
+      fail("step-overlap", "a step of %s started at %s while a step of %s was in progress" % (e[2], e[3], e[1]))
+  for e in ix.wedged:
+    fail("thread-blocked-forever", "when the run was over thread %s was blocked without any timeout in %s" % (e[1], e[2]),
+         site=str(e[2]).split("(")[0].rstrip("0123456789"))
+  for e in ix.deadlocks:
+    if not ix.wedged:
+      fail("thread-deadlock", "no thread could run and none had a timeout: %r" % (e[1],))
   if ix.final.get("underflows"):
     fail("pinger-read-would-block", "the select hub drained an empty pinger %d time(s); a real pinger blocks there" % ix.final["underflows"])
 
@@ -350,13 +364,20 @@ def check(case, log):
         _check_select(case, ix, fail, tid, op, rseq, rtime, wseq, wtime, val, due, sel_reqs)
       elif kind == "recv":
         if isinstance(val, dict) and "b" in val:
-          prev = log[wseq - 1] if wseq > 0 else None
+          pq = wseq - 1
+          while pq >= 0 and log[pq][0] not in ("srecv", "step", "req", "end"):
+            pq -= 1                      # events of other threads (select returns, registrations) may lie in between
+          prev = log[pq] if pq >= 0 else None
           if not (prev is not None and prev[0] == "srecv" and prev[1] == op["sock"] and prev[3] == val["b"]):
             fail("recv-value-not-from-socket", "%s: Recv on s%d returned %r which is not what the socket handed out at that moment (%r)" % (tid, op["sock"], val, prev))
           else:
-            srecv_claimed.add(wseq - 1)
+            srecv_claimed.add(pq)
         elif val is None:
-          if due is None or wtime < due:
+          # a waiter on a socket that somebody else waits on too may find it drained (EAGAIN -> None)
+          others = any(o["op"] == "recv" and o.get("sock") == op["sock"] and otid != tid and oseq < wseq and (
+              ix.resume(otid, ostep) is None or ix.resume(otid, ostep)[0] > rseq)
+              for otid, orq in ix.reqs.items() for ostep, (oseq, opc, otime, o) in orq.items())
+          if (due is None or wtime < due) and not others:
             fail("resumed-early", "%s: %r requested at %s returned None at %s (timeout %s)" % (tid, op, rtime, wtime, due), op=kind)
         else:
           fail("recv-value-shape", "%s: Recv returned %r" % (tid, val))
@@ -424,7 +445,10 @@ def check(case, log):
   # every byte handed out by a socket reached a Recv step
   for (q, s, t, h) in ix.srecv:
     if q not in srecv_claimed:
-      nxt = log[q + 1] if q + 1 < len(log) else None
+      nq = q + 1
+      while nq < len(log) and log[nq][0] not in ("srecv", "step", "req", "end"):
+        nq += 1
+      nxt = log[nq] if nq < len(log) else None
       owner = nxt[1] if nxt is not None and nxt[0] == "step" else None
       if owner is not None and is_poisoned(owner):
         continue
@@ -631,6 +655,10 @@ def _check_cycles(ix, fail, P):
     for tid, (pos, prio) in present.items():
       if tid in P and tid not in track and (prio is None or prio >= 1):
         track[tid] = (num, pos, nleft)
+    if snap and snap[0][0] not in ran and (snap[0][1] is None or snap[0][1] >= 1):
+      # the head of the queue was popped by this cycle but no step ran: its return function aborted the slice
+      # (Send retrying); it re-enters the queue later and is tracked afresh
+      track.pop(snap[0][0], None)
     for tid in ran:
       if tid in track:
         c0, pos, l0 = track.pop(tid)
@@ -738,6 +766,14 @@ def labels(case, log):
   L = set()
   L.add("tasks=%d" % len(case.get("tasks", [])))
   L.add("hub=%s" % case.get("hub", "select"))
+  L.add("mode=%s" % case.get("mode", "inline"))
+  if case.get("mode") == "threaded":
+    fin = ix.final or {}
+    L.add("threaded:schedule-" + ("deviates" if fin.get("deviations") else "default"))
+    if fin.get("preemptions"):
+      L.add("threaded:line-preemption")
+    if fin.get("pinger_empty_reads"):
+      L.add("threaded:pinger-read-while-empty")
   if case.get("sched_thread"):
     L.add("schedule()-direct-path")
   for tid, rq in ix.reqs.items():
